@@ -52,7 +52,11 @@ static void build_trace(const Theo::Program &prog, size_t maxsteps, Trace &tr) {
     if (k == maxsteps) break;
     vm.executeSingle();
   }
-  for (auto &e : prog.potential_breaks) tr.available.push_back({e.first.file, e.first.line});
+  // "locations listed as available": the public listing
+  {
+    Theo::Program copy = prog;
+    for (auto &b : copy.getAvailableBreakpoints()) tr.available.push_back({b.file, b.line});
+  }
 }
 
 struct Op {
